@@ -1,6 +1,7 @@
 #include <algorithm>
 #include <iterator>
 #include <nano/core/parallel.h>
+#include <nano/verif.h>
 
 using namespace nano;
 using namespace nano::parallel;
@@ -10,6 +11,14 @@ std::atomic<nano::verif::pool_hook_t>& nano::verif::pool_hook()
 {
     static std::atomic<pool_hook_t> hook{nullptr};
     return hook;
+}
+#endif
+
+#ifdef NANO_VERIF
+nano::verif::trace_sink_t& nano::verif::trace_sink()
+{
+    thread_local trace_sink_t sink = nullptr;
+    return sink;
 }
 #endif
 
